@@ -679,6 +679,11 @@ func (f *OrefaFile) Write(b []byte) (n int, err error) {
 		return 0, &fs.PathError{Op: op, Path: f.name, Err: err}
 	}
 
+	if len(b) == 0 {
+		// writing nothing changes nothing : neither the size of the file nor the position.
+		return 0, nil
+	}
+
 	verifYield(&nd.mu, true)
 	nd.mu.Lock()
 
@@ -735,6 +740,11 @@ func (f *OrefaFile) WriteAt(b []byte, off int64) (n int, err error) {
 
 	if f.nd == nil {
 		return 0, &fs.PathError{Op: op, Path: f.name, Err: fs.ErrClosed}
+	}
+
+	if len(b) == 0 {
+		// writing nothing changes nothing, wherever the offset is : as os.File, nothing else is checked.
+		return 0, nil
 	}
 
 	nd := f.nd
